@@ -345,9 +345,11 @@ def _frame_start(path: Path, index: int) -> int:
     return -1
 
 
-def reaching_store(path: Path, index: int, name: str):
+def reaching_store(path: Path, index: int, name: str, fid=Ellipsis):
     """(position, event) of the last store to local ``name`` before ``index`` in its frame"""
-    if index >= len(path.events):
+    if fid is not Ellipsis:
+        index = min(index, len(path.events))
+    elif index >= len(path.events):
         index = len(path.events)
         fid = path.events[-1].data.get('fid') if path.events else None
     else:
@@ -362,7 +364,7 @@ def reaching_store(path: Path, index: int, name: str):
 
 
 def value_expr(path: Path, index: int, expr, depth: int = 6, keep_clock: bool = True,
-               keep=()):
+               keep=(), frame=None):
     """
     ``expr`` (evaluated at event ``index`` of ``path``) with local names replaced by the
     value that reaches them **on this path** and helper parameters replaced by the
@@ -376,6 +378,25 @@ def value_expr(path: Path, index: int, expr, depth: int = 6, keep_clock: bool = 
     original = {id(c): o for o, c in zip(ast.walk(expr), ast.walk(tree))}
     fid = event.data.get('fid') if event is not None else (
         path.events[-1].data.get('fid') if path.events else None)
+    if frame is not None:
+        # evaluate inside an inlined helper's frame (its return expression)
+        fid, bind, fn = frame
+
+    def returned_by_helper(source):
+        """the value an inlined helper returned for this call on this path"""
+        if source is None or depth <= 0:
+            return None
+        for pos in range(min(index, len(path.events)) - 1, -1, -1):
+            seen = path.events[pos]
+            if seen.kind == 'leave' and seen.node is source and \
+                    seen.data.get('how') == 'helper' and seen.data.get('fid') == fid:
+                ret = seen.data.get('ret')
+                if ret is None:
+                    return None
+                return value_expr(path, pos, ret, depth - 1, keep_clock, keep,
+                                  frame=(seen.data.get('ret_fid'), seen.data.get('ret_bind'),
+                                         seen.data['callee'].fn))
+        return None
 
     class Sub(ast.NodeTransformer):
         def visit_IfExp(self, node):
@@ -393,11 +414,13 @@ def value_expr(path: Path, index: int, expr, depth: int = 6, keep_clock: bool = 
         def visit_Name(self, node):
             if not isinstance(node.ctx, ast.Load) or depth <= 0 or node.id in keep:
                 return node
-            if bind and node.id in bind:
-                arg, enter_index = bind[node.id]
-                return value_expr(path, enter_index, arg, depth - 1, keep_clock, keep)
-            found = reaching_store(path, index, node.id)
+            found = reaching_store(path, index, node.id, fid) if frame is not None \
+                else reaching_store(path, index, node.id)
             if found is None:
+                # a helper parameter that was not re-bound: the caller's argument
+                if bind and node.id in bind:
+                    arg, enter_index = bind[node.id]
+                    return value_expr(path, enter_index, arg, depth - 1, keep_clock, keep)
                 return node
             pos, store = found
             value = store.data.get('value')
@@ -410,6 +433,24 @@ def value_expr(path: Path, index: int, expr, depth: int = 6, keep_clock: bool = 
             if keep_clock and fn is not None and is_current_time(value, store.fn):
                 return node
             return value_expr(path, pos, value, depth - 1, keep_clock, keep)
+
+        def visit_Call(self, node):
+            got = returned_by_helper(original.get(id(node)))
+            return got if got is not None else self.generic_visit(node)
+
+        def visit_Await(self, node):
+            got = returned_by_helper(original.get(id(node)))
+            return got if got is not None else self.generic_visit(node)
+
+        def visit_Subscript(self, node):
+            node = self.generic_visit(node)
+            # (a, b)[0] -> a
+            if isinstance(node.value, ast.Tuple) and isinstance(node.slice, ast.Constant) \
+                    and isinstance(node.slice.value, int) and \
+                    0 <= node.slice.value < len(node.value.elts) and not any(
+                        isinstance(e, ast.Starred) for e in node.value.elts):
+                return node.value.elts[node.slice.value]
+            return node
 
     return Sub().visit(tree)
 
@@ -593,4 +634,56 @@ def sequence_maps(fnode) -> dict:
                     result[target] = SeqMap(target, later.iter, later.target.id, elt,
                                             [stmt, later], 'append-loop')
                     break
+    return result
+
+
+# ------------------------------------------------------------- inequalities on paths
+def asserted(test, value):
+    """the normalised inequality known to hold once ``test`` evaluated to ``value``:
+    (strict?, polynomial of bigger - smaller), None for anything else"""
+    from .props.c19 import inequality
+    found = inequality(test)
+    if found is None:
+        return None
+    strict, diff = found
+    if value:
+        return strict, diff
+    return (not strict), tuple(sorted((k, -v) for k, v in diff))
+
+
+def stable_locals(path: Path, expr) -> bool:
+    """only constants and locals/parameters that are never re-bound on the path"""
+    for node in ast.walk(expr):
+        if isinstance(node, (ast.Attribute, ast.Call, ast.Subscript, ast.Await)):
+            return False
+        if isinstance(node, ast.Name) and isinstance(node.ctx, ast.Load):
+            if reaching_store(path, len(path.events), node.id) is not None:
+                return False
+    return True
+
+
+def path_inequalities(path: Path, start: int = 0, stop: int = None, transform=None,
+                      **kw) -> list:
+    """
+    [(position, inequality, from an assert?)] for the comparisons tested on a path segment,
+    operands expanded to the values that reach them.  A *remembered* outcome
+    (``ok = a > b`` ... ``if ok:``) counts only while its operands cannot have changed.
+    ``transform(expr, fn)`` may rewrite the expanded comparison (clock symbols).
+    """
+    result = []
+    stop = len(path.events) if stop is None else stop
+    for pos in range(start, stop):
+        event = path.events[pos]
+        if event.kind not in ('test', 'assert') or 'value' not in event.data:
+            continue
+        seen = value_expr(path, pos, event.node, **kw)
+        if not isinstance(seen, ast.Compare):
+            continue
+        if not isinstance(event.node, ast.Compare) and not stable_locals(path, seen):
+            continue
+        if transform is not None:
+            seen = transform(seen, event.fn)
+        found = asserted(seen, event.data['value'])
+        if found is not None:
+            result.append((pos, found, event.kind == 'assert'))
     return result
